@@ -246,7 +246,11 @@ def convert_ops(
     retlist = []
     pc = 0
     for op in oplist:
-        if isinstance(op, RelativeBranch) and op.tokens[0].type == Token.SYMBOL:
+        if (
+            isinstance(op, RelativeBranch)
+            and op.tokens[0].type == Token.SYMBOL
+            and not isinstance(symbol_table[op.args[0]], Constant)
+        ):
             target = symbol_table[op.args[0]]
             jump = target - pc
             if jump < -128 or jump >= 128:
